@@ -115,6 +115,30 @@ def collect_views(ca: pa.ChunkedArray, arr: NEA):
         agree = False
         notes.append(f"the accessor read as a mapping (keys / items / values / in / get) differs from the flat series: {str(v_map)[:200]}")
 
+    # the accessor object is cached by pandas on the series: after a pandas in-place operation that gives the series another
+    # array (sort_index / drop with inplace=True) the views through .nest must be those of the series as it is NOW
+    def lived_series_view():
+        s2 = pd.Series(arr, index=idx if n % 2 else labels, name="n")
+        s2.nest.list_lengths
+        s2.nest.to_flat()
+        s2.sort_index(ascending=False, inplace=True)
+        if n > 1:
+            s2.drop(s2.index[0], inplace=True)
+        fresh = pd.Series(s2.array, index=s2.index, name="n")
+
+        def summary(x):
+            fl = x.nest.to_flat()
+            return repr(([int(v) for v in x.nest.list_lengths], int(x.nest.flat_length), list(x.nest.get_flat_index()), list(fl.index),
+                         {c: fl[c].array._pa_array.to_pylist() for c in fl.columns},
+                         {c: v.array._pa_array.to_pylist() for c, v in x.nest.to_lists().items()}))
+        a, b = summary(s2), summary(fresh)
+        assert a == b, f"through the accessor of the lived series: {a[:150]} but the series now holds {b[:150]}"
+        return True
+    v_lived = attempt(lived_series_view)
+    if v_lived[0] != "ok" and v_flat[0] == "ok":
+        agree = False
+        notes.append(f"views through the accessor after pandas in-place operations on the series: {v_lived[1][:300]}")
+
     def frame_view():
         nf = NestedFrame({"base": list(range(n))}, index=s.index)
         nf["n"] = s
